@@ -1,6 +1,6 @@
 (** C10 — short-circuit terminals stop consuming input once a match is known. *)
 From OrxPar Require Import Base Settings SettingsP Spec Pipeline PipelineP Machine MachineP Termination
-  Kernels KernelsP Program Master.
+  Kernels KernelsP Program Master MachineIter MachineIterP TerminationIter MasterIter.
 
 (** (a) every schedule: once [skip_to_end] has happened, a worker's next pull fails and hands
     out nothing -- whatever the remaining input *)
@@ -45,6 +45,26 @@ Theorem C10_effective_steps_bounded : forall (r : Runner) (len : nat) (stop : na
 Proof. intros r len stop sched Hw. apply mrun_effective_bounded; assumption. Qed.
 Print Assumptions C10_effective_steps_bounded.
 
+(** the same over by-value iterator sources (ticket / gate protocol, ordered or first come):
+    whatever the state reached -- tickets waiting, a reader inside its chunk, the early-exit
+    signal out -- a fair continuation completes the run: waiting on the handle is never a
+    deadlock; and no schedule has more than [9 * max_threads + 2 + 5 * len] effective steps *)
+Theorem C10_fair_continuation_completes_iter :
+  forall (r : Runner) (len : nat) (ordered : bool) (stop : nat -> bool) (sched : list nat),
+  runner_wf r ->
+  iall_done (imrunp r len ordered stop nopanic
+               (sched ++ round_robin (m_maxt r) (iphi len (m_maxt r) (imrunp r len ordered stop nopanic sched)))).
+Proof. intros r len ordered stop sched Hw. apply imrunp_completes; assumption. Qed.
+Print Assumptions C10_fair_continuation_completes_iter.
+
+Theorem C10_effective_steps_bounded_iter :
+  forall (r : Runner) (len : nat) (ordered : bool) (stop : nat -> bool) (sched : list nat),
+  runner_wf r ->
+  ieffective len (match r_input_len r with Some _ => true | None => false end) ordered stop nopanic
+             (m_dospawn r) (m_nextc r) (iinit (m_c0 r)) sched <= 9 * m_maxt r + 2 + 5 * len.
+Proof. intros r len ordered stop sched Hw. apply imrun_effective_bounded; assumption. Qed.
+Print Assumptions C10_effective_steps_bounded_iter.
+
 (** (c) sequential mode: the trace consumed for an element stops at its first yield *)
 Theorem C10_sequential_stops_at_match : forall (V : Type) (l : list (event V)) (v : V),
   snd (upto_yield l) = Some v ->
@@ -64,4 +84,16 @@ Example C10_example :
   let stop := fun i => Nat.eqb i 1 || Nat.eqb i 4 in
   let s := mrun r 1000 stop ([0;0;0] ++ [1;2;3] ++ [3;3;3] ++ round_robin 3 8) in
   all_doneb s = true /\ skipped s = true /\ map seen (ws s) = [[0; 1]; [2; 3]; [4]] /\ front s = 6.
+Proof. vm_compute. repeat split. Qed.
+
+(** iterator source, ordered handle: worker 2 takes its ticket first but must wait for worker 1's
+    ticket to be served; worker 1 finds a match in its chunk; everybody ends *)
+Example C10_example_iter :
+  let r := mkRunner None 3%N (RExact 2%N) in
+  let stop := fun i => Nat.eqb i 1 in
+  let s0 := imrunp r 1000 true stop nopanic ([0;0;0] ++ [1;2;2;2;2]) in
+  let s := imrunp r 1000 true stop nopanic
+             ([0;0;0] ++ [1;2;2;2;2] ++ round_robin 3 (iphi 1000 3 s0)) in
+  map iph (iws s0) = [ITicket 0; ITicket 2] /\ igate s0 = Open 0 /\ iall_doneb s0 = false /\
+  iall_doneb s = true /\ iskipped s = true /\ map iseen (iws s) = [[0; 1]; [2; 3]; []].
 Proof. vm_compute. repeat split. Qed.
